@@ -131,6 +131,26 @@ def draw_inputs(c, rng, lo=-2, hi=2):
         inp["mag"] = draw_mag(op, inp, int(c["mag"]), rng)
     if c.get("pnear", 0):
         inp["pnear"] = int(c["pnear"])
+    inp["aliased"] = []
+    if c.get("alias"):
+        # ALIASING: two factor arguments that are the very same array object (where two factors have the same shape)
+        shp = [f.shape for f in inp["fs"]]
+        pairs = [(i, j) for i in range(len(shp)) for j in range(i + 1, len(shp)) if shp[i] == shp[j]]
+        if pairs:
+            i, j = pairs[int(rng.integers(len(pairs)))]
+            inp["fs"][j] = inp["fs"][i].copy()
+            inp["aliased"] = [i, j]
+    if c.get("vals", "plain") != "plain":
+        # VALUES: the zeros of one factor column are negative zeros (-0.0) or subnormal (5e-324); at least one is forced
+        k = int(rng.integers(len(inp["fs"])))
+        if inp["fs"][k].ndim == 2 and inp["fs"][k].size:
+            rr = int(rng.integers(inp["fs"][k].shape[1]))
+            inp["fs"][k][int(rng.integers(inp["fs"][k].shape[0])), rr] = 0.0
+            if inp["aliased"] and k in inp["aliased"]:
+                a, b = inp["aliased"]
+                inp["fs"][b] = inp["fs"][a].copy() if k == a else inp["fs"][b]
+                inp["fs"][a] = inp["fs"][b].copy() if k == b else inp["fs"][a]
+            inp["zsub"] = {"k": k, "r": rr, "sub": c["vals"] == "subnormal"}
     if c.get("late"):
         # the valid configuration the wrapper object is built from before its parts are replaced
         b = {"op": op, "fshapes": c["bfshapes"], "hasw": c["hasw"], "wlen": c["bwlen"], "coreshape": c["bcoreshape"],
@@ -221,6 +241,10 @@ def inputs_json(c, inp):
         out["tmag"] = {"e": int(inp["tmag"]["e"]), "part": inp["tmag"]["part"]}
     if "negzero" in inp:
         out["negzero"] = [int(x) for x in inp["negzero"]]
+    if "aliased" in inp:
+        out["aliased"] = [int(x) + 1 for x in inp["aliased"]]          # 1-based for the specification
+    if "zsub" in inp:
+        out["zsub"] = {"k": int(inp["zsub"]["k"]), "r": int(inp["zsub"]["r"]), "sub": bool(inp["zsub"]["sub"])}
     if "mag" in inp:
         out["mag"] = {k: int(v) for k, v in inp["mag"].items()}
     if "base" in inp:
@@ -255,6 +279,10 @@ def inputs_from_json(c, j):
         inp["alldtype"] = c["alldtype"]
     if "negzero" in j:
         inp["negzero"] = list(j["negzero"])
+    if "aliased" in j:
+        inp["aliased"] = [int(x) - 1 for x in j["aliased"]]
+    if "zsub" in j:
+        inp["zsub"] = dict(j["zsub"])
     if "mag" in j:
         inp["mag"] = dict(j["mag"])
     if "base" in j:
@@ -276,6 +304,13 @@ def fresh(op, inp):
         if core is not None:
             core = core / inp["cden"]
     w = inp["w"].copy() if inp.get("hasw") else None
+    if "zsub" in inp:                      # the zeros of column r of factor k: -0.0, or the smallest subnormal
+        k, r = inp["zsub"]["k"], inp["zsub"]["r"]
+        col = fs[k][:, r]
+        fs[k][:, r] = np.where(col == 0, 5e-324 if inp["zsub"]["sub"] else -0.0, col)
+    if inp.get("aliased"):                 # the same array OBJECT in two positions
+        a, b = inp["aliased"]
+        fs[b] = fs[a]
     if "negzero" in inp:                   # the zeros of column r of factor k carry a sign bit (-0.0): still exactly zero
         k, r = inp["negzero"]
         col = fs[k][:, r]
@@ -352,7 +387,7 @@ def _rank_json(rank):
 def _norm_json(v, unscale_by=1.0):
     """norm v (times the exact power of two that undoes a total-magnitude scaling): squared and quantised; iszero = exactly 0"""
     v = float(v)
-    iszero = v == 0.0
+    iszero = abs(v) < 1e-150
     v = v * unscale_by
     q3, ok3 = qi(v * v, 1000)
     q0, ok0 = qi(v * v, 1)
@@ -376,10 +411,11 @@ def blank_run(op):
         r["slices_nv"] = []
         r["slice1_nv"] = []
         r["slice1n"] = []
+        r["projected"] = []
     return r
 
 
-def run_tucker_options(inp, how, skip, tr, modes):
+def run_tucker_options(inp, how, skip, tr, modes, callform="plain"):
     """Tucker view functions under their documented options (skip_factor, transpose_factors, modes), on the tuple
     or on a TuckerTensor passed to the same functions (the wrapper's own methods take no options)."""
     import tensorly as tl
@@ -393,16 +429,17 @@ def run_tucker_options(inp, how, skip, tr, modes):
         return tk.TuckerTensor(fresh(op, inp)) if how == "object" else fresh(op, inp)
     sk = None if skip < 0 else int(skip)
     try:
+        cf = callform
         if modes:
-            dense = tl.tucker_to_tensor(mk(), skip_factor=sk, transpose_factors=tr, modes=[int(m) for m in modes])
+            dense = call(tl.tucker_to_tensor, "tucker_to_tensor", cf, mk(), skip_factor=sk, transpose_factors=tr, modes=[int(m) for m in modes])
             r["dense"] = T(dense)
         else:
-            dense = tl.tucker_to_tensor(mk(), skip_factor=sk, transpose_factors=tr)
+            dense = call(tl.tucker_to_tensor, "tucker_to_tensor", cf, mk(), skip_factor=sk, transpose_factors=tr)
             r["dense"] = T(dense)
             nm = np.ndim(dense)
-            r["unf"] = [T(tl.tucker_to_unfolded(mk(), idx(m, nm, False), skip_factor=sk, transpose_factors=tr)) for m in range(nm)]
-            r["unfn"] = [T(tl.tucker_to_unfolded(mk(), idx(m, nm, True), skip_factor=sk, transpose_factors=tr)) for m in range(nm)]
-            r["vec"] = T(tl.tucker_to_vec(mk(), skip_factor=sk, transpose_factors=tr))
+            r["unf"] = [T(call(tl.tucker_to_unfolded, "tucker_to_unfolded", cf, mk(), mode=idx(m, nm, False), skip_factor=sk, transpose_factors=tr)) for m in range(nm)]
+            r["unfn"] = [T(call(tl.tucker_to_unfolded, "tucker_to_unfolded", cf, mk(), mode=idx(m, nm, True), skip_factor=sk, transpose_factors=tr)) for m in range(nm)]
+            r["vec"] = T(call(tl.tucker_to_vec, "tucker_to_vec", cf, mk(), skip_factor=sk, transpose_factors=tr))
         r["dense2"] = r["dense"]
         r["dtype"] = str(np.asarray(dense).dtype)
         r["exact"] = exact[0]
@@ -433,6 +470,8 @@ def make_T(inp, exact, scale):
 
     def T(a):
         a = np.asarray(a)
+        if a.dtype.kind in "fc":
+            a = np.where(np.abs(a) < 1e-300, 0.0, a)       # what a subnormal input entry (5e-324) leaves behind is zero
         if cplx:
             j, ex = jt_exact(np.real(a) * scale)
             ji, exi = jt_exact(np.imag(a) * scale)
@@ -534,6 +573,78 @@ def run_tucker_options_invalid(inp, skip, tr, modes):
     return r
 
 
+# Published signatures of the pinned tree (names and order FROZEN here on purpose -- never read from the live functions:
+# a parameter inserted in the middle of a signature, or renamed, must show up as a failing call).
+# name -> [(parameter, default), ...]; a default of REQ marks a required parameter.
+REQ = object()
+SIG = {
+    "cp_to_tensor": [("cp_tensor", REQ), ("mask", None)],
+    "cp_to_unfolded": [("cp_tensor", REQ), ("mode", REQ)],
+    "cp_to_vec": [("cp_tensor", REQ)],
+    "cp_norm": [("cp_tensor", REQ)],
+    "tucker_to_tensor": [("tucker_tensor", REQ), ("skip_factor", None), ("transpose_factors", False), ("modes", None)],
+    "tucker_to_unfolded": [("tucker_tensor", REQ), ("mode", 0), ("skip_factor", None), ("transpose_factors", False)],
+    "tucker_to_vec": [("tucker_tensor", REQ), ("skip_factor", None), ("transpose_factors", False)],
+    "tt_to_tensor": [("factors", REQ)], "tt_to_unfolded": [("factors", REQ), ("mode", REQ)], "tt_to_vec": [("factors", REQ)],
+    "tr_to_tensor": [("factors", REQ)], "tr_to_unfolded": [("factors", REQ), ("mode", REQ)], "tr_to_vec": [("factors", REQ)],
+    "tt_matrix_to_tensor": [("tt_matrix", REQ)], "tt_matrix_to_matrix": [("tt_matrix", REQ)],
+    "tt_matrix_to_unfolded": [("tt_matrix", REQ), ("mode", REQ)], "tt_matrix_to_vec": [("tt_matrix", REQ)],
+    "parafac2_to_tensor": [("parafac2_tensor", REQ)],
+    "parafac2_to_slices": [("parafac2_tensor", REQ), ("validate", True)],
+    "parafac2_to_slice": [("parafac2_tensor", REQ), ("slice_idx", REQ), ("validate", True)],
+    "parafac2_to_unfolded": [("parafac2_tensor", REQ), ("mode", REQ)],
+    "parafac2_to_vec": [("parafac2_tensor", REQ)],
+    "apply_parafac2_projections": [("parafac2_tensor", REQ)],
+    # C04
+    "cp_normalize": [("cp_tensor", REQ)], "tucker_normalize": [("tucker_tensor", REQ)], "parafac2_normalise": [("parafac2_tensor", REQ)],
+    "cp_flip_sign": [("cp_tensor", REQ), ("mode", 0), ("func", None)],
+    "cp_mode_dot": [("cp_tensor", REQ), ("matrix_or_vector", REQ), ("mode", REQ), ("keep_dim", False), ("copy", False)],
+    "tucker_mode_dot": [("tucker_tensor", REQ), ("matrix_or_vector", REQ), ("mode", REQ), ("keep_dim", False), ("copy", False)],
+    "CPTensor.mode_dot": [("matrix_or_vector", REQ), ("mode", REQ), ("keep_dim", False), ("copy", True)],
+    "TuckerTensor.mode_dot": [("matrix_or_vector", REQ), ("mode", REQ), ("keep_dim", False), ("copy", False)],
+    "cp_permute_factors": [("ref_cp_tensor", REQ), ("tensors_to_permute", REQ)],
+    "pad_tt_rank": [("factor_list", REQ), ("n_padding", 1), ("pad_boundaries", False)],
+    "svd_compress_tensor_slices": [("tensor_slices", REQ), ("compression_threshold", 0.0), ("max_rank", None), ("svd", "truncated_svd")],
+    "svd_decompress_parafac2_tensor": [("parafac2_tensor", REQ), ("loading_matrices", REQ)],
+    "from_CPTensor": [("cp_tensor", REQ), ("parafac2_tensor_ok", False)],
+}
+CALL_NAMES = {   # key of _api(op) -> published function name
+    "cp": {"to_tensor": "cp_to_tensor", "to_unfolded": "cp_to_unfolded", "to_vec": "cp_to_vec", "norm": "cp_norm"},
+    "tucker": {"to_tensor": "tucker_to_tensor", "to_unfolded": "tucker_to_unfolded", "to_vec": "tucker_to_vec"},
+    "tt": {"to_tensor": "tt_to_tensor", "to_unfolded": "tt_to_unfolded", "to_vec": "tt_to_vec"},
+    "tr": {"to_tensor": "tr_to_tensor", "to_unfolded": "tr_to_unfolded", "to_vec": "tr_to_vec"},
+    "ttm": {"to_tensor": "tt_matrix_to_tensor", "to_unfolded": "tt_matrix_to_unfolded", "to_vec": "tt_matrix_to_vec", "to_matrix": "tt_matrix_to_matrix"},
+    "p2": {"to_tensor": "parafac2_to_tensor", "to_unfolded": "parafac2_to_unfolded", "to_vec": "parafac2_to_vec", "to_slices": "parafac2_to_slices",
+           "to_slice": "parafac2_to_slice"},
+}
+
+
+def spell(v, form):
+    """Booleans spelled the way callers do: plain bool, NumPy bool (positional form), 0/1 (keyword form)."""
+    if isinstance(v, (bool, np.bool_)):
+        return bool(v) if form == "plain" else (np.bool_(v) if form == "pos" else int(v))
+    return v
+
+
+def call(fn, name, form, first, **kw):
+    """Call the published function `name` with its first argument `first` and the given other arguments:
+    form "plain": first positionally, the rest by keyword (the usual mixture);
+    form "pos"  : EVERYTHING positionally in the published order (defaults from the frozen table fill the gaps);
+    form "kw"   : EVERYTHING by its published keyword name."""
+    params = SIG[name]
+    kw = {k: spell(v, form) for k, v in kw.items()}
+    unknown = [k for k in kw if k not in [p for p, _ in params[1:]]]
+    if unknown:
+        raise KeyError("harness: %s has no published parameter %s" % (name, unknown))
+    if form == "kw":
+        return fn(**{params[0][0]: first}, **kw)
+    if form == "pos":
+        last = max([i for i, (p, _) in enumerate(params) if p in kw] + [0])
+        args = [first] + [kw[p] if p in kw else d for p, d in params[1:last + 1]]
+        return fn(*args)
+    return fn(first, **kw)
+
+
 def reform(op, t, form):
     """The same parts in another container form: "tuple" = tuples all the way down, "list" = lists all the way down
     (fresh() gives the mixed form: an outer tuple holding lists)."""
@@ -555,7 +666,7 @@ def idx(i, n, negative):
     return np.int64(v) if i % 2 == 1 else int(v)
 
 
-def run_views(op, inp, how, shared=False, objfactory=None, form="mixed"):
+def run_views(op, inp, how, shared=False, objfactory=None, form="mixed", callform="plain"):
     """how = "tuple": module-level functions on the tuple/list form; "object": the wrapper class and its methods.
     shared = every conversion is called, in sequence, on ONE tuple / ONE object (otherwise on a fresh copy each)."""
     api = _api(op)
@@ -564,6 +675,9 @@ def run_views(op, inp, how, shared=False, objfactory=None, form="mixed"):
     scale = out_scale(inp)
     T = make_T(inp, exact, scale)
     nscale = np.ldexp(1.0, -inp["tmag"]["e"]) if "tmag" in inp else 1.0
+
+    def F(key, first, **kw):           # a published conversion function, called in the configured call form
+        return call(api[key], CALL_NAMES[op][key], callform, first, **kw)
     if inp.get("pnear", 0):
         nscale = 1.0 / (1.0 + inp["pnear"] * 2.0 ** -18)
 
@@ -598,7 +712,14 @@ def run_views(op, inp, how, shared=False, objfactory=None, form="mixed"):
             if objfactory:
                 return objfactory()
             return api["cls"](reform(op, fresh(op, inp), form)) if obj else reform(op, fresh(op, inp), form)
-        dense = mk().to_tensor() if obj else api["to_tensor"](mk())
+        if shared:
+            # a PREVIOUS FAILED CALL on the very same tuple / object: the caller caught the exception and goes on
+            try:
+                (mk().to_unfolded if obj and "to_unfolded" in type(mk()).__dict__ else (mk().to_unfolding if obj else lambda m: F("to_unfolded", mk(), mode=m)))(97)
+                r["exc"] = "prefail: mode 97 was accepted"
+            except Exception:
+                pass
+        dense = mk().to_tensor() if obj else F("to_tensor", mk())
         r["dense"] = T(dense)
         r["dtype"] = str(np.asarray(dense).dtype)
         nmodes = np.ndim(dense)
@@ -613,14 +734,14 @@ def run_views(op, inp, how, shared=False, objfactory=None, form="mixed"):
                 # CP / Tucker / PARAFAC2 wrappers call the view to_unfolded, TT / TR / TT-matrix to_unfolding
                 meth = o.to_unfolded if "to_unfolded" in type(o).__dict__ else o.to_unfolding
                 return TT(meth(i))
-            return TT(api["to_unfolded"](mk(), i))
+            return TT(F("to_unfolded", mk(), mode=i))
         r["unf"] = [unfold_view(m, False) for m in range(nmodes)]
         try:
             r["unfn"] = [unfold_view(m, True) for m in range(nmodes)]
         except Exception as ex:                       # judged by its own clause (UnfoldedNeg)
             r["unfn"] = []
             r["exc"] = "unfn: %s: %s" % (type(ex).__name__, str(ex)[:80])
-        r["vec"] = T(mk().to_vec() if obj else api["to_vec"](mk()))
+        r["vec"] = T(mk().to_vec() if obj else F("to_vec", mk()))
         if obj:
             r["norm"] = _norm_json(mk().norm(), nscale)
             # any other public, argument-free, norm-named method the wrapper exposes must agree with the dense norm, too
@@ -635,29 +756,32 @@ def run_views(op, inp, how, shared=False, objfactory=None, form="mixed"):
                         except TypeError:
                             pass
         elif api["norm"] is not None:
-            r["norm"] = _norm_json(api["norm"](mk()), nscale)
+            r["norm"] = _norm_json(F("norm", mk()), nscale)
         if op == "cp":
             mden = inp.get("mden", 1)
             mask = inp["mask"].astype(bool) if inp.get("maskbool") else inp["mask"] / mden
             try:
-                r["masked"] = T(np.asarray(api["to_tensor"](mk(), mask=mask)) * mden)
+                r["masked"] = T(np.asarray(F("to_tensor", mk(), mask=mask)) * mden)
             except Exception as ex:                   # judged by its own clause (Masked)
                 r["masked"] = EMPTY_T
                 r["exc"] = "masked: %s: %s" % (type(ex).__name__, str(ex)[:80])
         if op == "ttm":
-            r["matrix"] = T(mk().to_matrix() if obj else api["to_matrix"](mk()))
+            r["matrix"] = T(mk().to_matrix() if obj else F("to_matrix", mk()))
         if op == "p2":
-            r["slices"] = [T(s) for s in api["to_slices"](mk())]
+            r["slices"] = [T(s) for s in F("to_slices", mk())]
+            from tensorly.parafac2_tensor import apply_parafac2_projections
+            pw, (pA, pBs, pC) = call(apply_parafac2_projections, "apply_parafac2_projections", callform, mk())
+            r["projected"] = [T2(b) for b in pBs]
             ns = len(inp["ps"])
-            r["slice1"] = [T(api["to_slice"](mk(), idx(i, ns, False))) for i in range(ns)]
+            r["slice1"] = [T(F("to_slice", mk(), slice_idx=idx(i, ns, False))) for i in range(ns)]
             try:
-                r["slice1n"] = [T2(api["to_slice"](mk(), idx(i, ns, True))) for i in range(ns)]      # counted from the back
+                r["slice1n"] = [T2(F("to_slice", mk(), slice_idx=idx(i, ns, True))) for i in range(ns)]      # counted from the back
             except Exception as ex:                   # judged by its own clause (SliceNeg)
                 r["slice1n"] = []
                 r["exc"] = "slice1n: %s: %s" % (type(ex).__name__, str(ex)[:80])
-            r["slices_nv"] = [T(s) for s in api["to_slices"](mk(), validate=False)]
-            r["slice1_nv"] = [T(api["to_slice"](mk(), i, validate=False)) for i in range(len(inp["ps"]))]
-        r["dense2"] = T(mk().to_tensor() if obj else api["to_tensor"](mk()))
+            r["slices_nv"] = [T(s) for s in F("to_slices", mk(), validate=False)]
+            r["slice1_nv"] = [T(F("to_slice", mk(), slice_idx=i, validate=False)) for i in range(len(inp["ps"]))]
+        r["dense2"] = T(mk().to_tensor() if obj else F("to_tensor", mk()))
         r["exact"] = exact[0]
     except Exception as ex:
         r2 = blank_run(op)
